@@ -7,9 +7,10 @@ wt=$1; id=$2; out=$wt/seed_out
 [ -f $out/patch.diff ] || { echo "no patch"; exit 2; }
 pkg=$(cat $out/DEMO_PKG.txt | tr -d '[:space:]'); [ -z "$pkg" ] && pkg=.
 tmp=$(mktemp -d /tmp/confirm.XXXX)
-cp $out/patch.diff $out/zz_seed_demo_test.go $tmp/; cp $out/notes.md $tmp/ 2>/dev/null
+[ -f $out/zz_seed_demo_test.go ] || cp $out/zz_seed_demo_test.go.txt $out/zz_seed_demo_test.go
+cp $out/patch.diff $out/zz_seed_demo_test.go $tmp/; cp $out/notes.md $tmp/ 2>/dev/null; cp $out/DEMO_PKG.txt $tmp/
 cd $wt && git checkout -q -- . && git clean -fdq . && mkdir -p seed_out && cp $tmp/* seed_out/ 2>/dev/null
-rm -f seed_out/*_test.go   # keep ./... clean
+for f in seed_out/*_test.go; do [ -f "$f" ] && mv "$f" "$f.txt"; done   # keep ./... clean, keep the demo
 cp $tmp/zz_seed_demo_test.go $wt/$pkg/zz_seed_demo_test.go
 echo "== demo on original code"; (cd $wt/$pkg && go test -vet=off -count=1 -run 'Seed' . 2>&1 | tail -3); r0=${PIPESTATUS[0]}
 (cd $wt/$pkg && go test -vet=off -count=1 -run 'Seed' . >/dev/null 2>&1); r0=$?
